@@ -27,7 +27,7 @@ m = {
     "hooks": {
         "guard": "verif",
         "enable": "go build -tags verif (the harness module /verif/harness replaces the repository modules with /repo and is rebuilt with -tags verif by every check)",
-        "baseline_off_cmd": "cd /repo && go test -vet=off -count=1 ./... && cd gcetcbendorsement && go test -vet=off -count=1 ./...",
+        "baseline_off_cmd": "for m in . gcetcbendorsement; do (cd /repo/$m && go build ./... && go test -vet=off -count=1 ./...); done",
         "source_commits": hook_commits,
         "add_only": True,
     },
